@@ -71,6 +71,9 @@ def gen_value(tv, rng, boundary=False, text_mode="auto"):
             while len(s.encode("utf8")) + 1 > maxlen:
                 s = s[:-1]
             return s.rstrip("\x00")
+        if rng.random() < 0.12:
+            # NUL-only / NUL-bearing short values: the decoded form of such a field is a bytes subclass that is falsy for b"\x00"
+            return rng.choice([b"\x00", b"\x00\x00", b"a\x00", b"\x00a"])[:maxlen]
         return bytes(rng.getrandbits(8) for _ in range(ln))
     raise ValueError(t)
 
